@@ -16,7 +16,7 @@ from concurrent.futures import ThreadPoolExecutor
 from pathlib import Path
 
 from .. import common, mapgen, mapsym
-from ..coqlit import Err, cbool, clist, cpair, cstr
+from ..coqlit import Err, cbool, clist, cnat, cpair, cstr
 from . import c04_reload
 
 PROP = "C04"
@@ -97,12 +97,30 @@ def _mut_lit(m):
         return "(MDel %s)" % cstr(m[1])
     if m[0] == "set":
         return "(MSet %s %s)" % (cstr(m[1]), _json_lit(m[2]))
+    if m[0] == "rm":
+        if m[1] == "single":
+            return "(MRemove (PSingle %s))" % cstr(m[2])
+        if m[1] == "dict":
+            return "(MRemove (PDictFile %s))" % cstr(m[2])
+        return "(MRemove (PElem %s %s))" % (cstr(m[2]), cnat(m[3]))
     return "(MSetIn %s %s %s)" % (cstr(m[1]), cstr(m[2]), _json_lit(m[3]))
+
+
+def _rm_path(m):
+    if m[1] == "single":
+        return f"outputs/{m[2]}.cloudpickle"
+    if m[1] == "dict":
+        return f"outputs/{m[2]}/dict_array.cloudpickle"
+    return f"outputs/{m[2]}/__{m[3]}__.pickle"
 
 
 def apply_mutation(folder, m):
     """Edit run_info.json the way a user (or a partial write) could: json.load, one edit, json.dump."""
     if not m:
+        return
+    if m[0] == "rm":
+        with contextlib.suppress(FileNotFoundError):
+            os.remove(os.path.join(folder, _rm_path(m)))
         return
     path = os.path.join(folder, "run_info.json")
     with open(path) as f:
@@ -450,7 +468,16 @@ FIELDS = ["all_output_names", "shapes", "internal_shapes", "shape_masks", "run_f
 
 def gen_mutation(rng, c):
     """One edit of run_info.json whose effect on RunInfo.load the model defines (no 'outside the schema' documents)."""
-    kind = rng.choice(["del", "del", "bad_dict", "bad_names", "bad_path", "extra", "version", "storage", "entry", "internal"])
+    kind = rng.choice(["del", "del", "bad_dict", "bad_names", "bad_path", "extra", "version", "storage", "entry", "internal",
+                       "rm", "rm", "rm"])
+    if kind == "rm":      # a missing file: masked element / None / FileNotFoundError, never a wrong value
+        fd = rng.choice([f for f in c["funcs"] if not f.get("spec") or f["spec"]["i"]] or [None])
+        if fd is None:     # only '... -> v[j]' generators: xarray's error class for a missing array is not modelled
+            return ["del", rng.choice(FIELDS)]
+        o = rng.choice(fd["outs"])
+        if not fd.get("spec"):
+            return ["rm", "single", o]
+        return rng.choice([["rm", "dict", o], ["rm", "elem", o, rng.randint(0, 2)]])
     if kind == "del":
         return ["del", rng.choice(FIELDS)]
     if kind == "bad_dict":
